@@ -534,7 +534,28 @@ class T:
                         fail(n, f"self.{self_attr(tg)} assigned in a nested statement of __init__")
         return init.lineno, order, vals
 
+    def check_buffer_owners(self):
+        """the read buffer belongs to the translated methods: no other method of `Device` (an error path, a clean-up helper, `connect`,
+        `disconnect`) may assign it or call a mutating method on it - what was received stays until `readline()` hands it over"""
+        for name, m in self.methods.items():
+            if name in METHODS or name == "__init__":
+                continue
+            for n in ast.walk(m):
+                tgs = []
+                if isinstance(n, (ast.Assign, ast.AugAssign, ast.AnnAssign, ast.Delete)):
+                    tgs = n.targets if isinstance(n, (ast.Assign, ast.Delete)) else [n.target]
+                if isinstance(n, ast.Call) and isinstance(n.func, ast.Attribute) and self_attr(n.func.value) == "_read_buffer":
+                    fail(n, f"Device.{name} calls _read_buffer.{n.func.attr}(): the buffer is expected to be touched by {METHODS} only")
+                for tg in tgs:
+                    base = tg.value if isinstance(tg, ast.Subscript) else tg
+                    if self_attr(base) == "_read_buffer":
+                        fail(n, f"Device.{name} assigns self._read_buffer: the buffer is expected to be touched by {METHODS} only")
+                if isinstance(n, ast.Call) and isinstance(n.func, ast.Name) and n.func.id in ("setattr", "delattr") and len(n.args) >= 2 \
+                        and isinstance(n.args[1], ast.Constant) and n.args[1].value == "_read_buffer":
+                    fail(n, f"Device.{name}: {n.func.id}(..., '_read_buffer')")
+
     def render(self):
+        self.check_buffer_owners()
         methods = [self.method(n) for n in METHODS]
         line, order, vals = self.init_values()
         fields = [f for f in order if f in self.used_fields]
